@@ -190,6 +190,20 @@ func (cl *call) sendLoop(cs grpc.ClientStream) {
 			cl.pend["send"]--
 			tr.emit(r)
 			cl.mu.Unlock()
+		case "sendbad":
+			// a message the codec refuses (not a proto.Message): SendMsg fails locally, nothing is written for
+			// it and the stream is over
+			cl.begin("send")
+			tr.emit(cl.base("SSendBad"))
+			err := cs.SendMsg("not a protobuf message")
+			r := cl.base("SSendBadRet")
+			r.Res = errRes(err)
+			errFields(&r, err)
+			r.X = errClass(err)
+			cl.mu.Lock()
+			cl.pend["send"]--
+			tr.emit(r)
+			cl.mu.Unlock()
 		case "close":
 			cl.begin("close")
 			tr.emit(cl.base("SClose"))
